@@ -1,6 +1,636 @@
+/-
+Helper lemmas for `Props/C07.lean`: which handlers can emit the rebirth NCMD, which state fields
+they keep, and how `Reseq.process` behaves under the invariant.
+-/
 import SradModel.Model.HostSpec
 import SradModel.Proofs.Reseq
 
 namespace Srad.Host
+
+/-! ### fields that only `issueRebirth` / `setStale` / `handleBirth` touch -/
+
+/-- `s'` has the same `lastRebirth`, `birthTs`, `life`, `bdseq` as `s` -/
+def Kept (s s' : St) : Prop :=
+  s'.lastRebirth = s.lastRebirth ∧ s'.birthTs = s.birthTs ∧ s'.life = s.life ∧ s'.bdseq = s.bdseq
+
+theorem Kept.refl (s : St) : Kept s s := ⟨rfl, rfl, rfl, rfl⟩
+
+theorem Kept.trans {a b d : St} (h1 : Kept a b) (h2 : Kept b d) : Kept a d := by
+  obtain ⟨h11, h12, h13, h14⟩ := h1
+  obtain ⟨h21, h22, h23, h24⟩ := h2
+  exact ⟨h21.trans h11, h22.trans h12, h23.trans h13, h24.trans h14⟩
+
+/-- "exactly when `P`, at most once, and then last" -/
+def NcmdSpec (e : List Eff) (P : Prop) : Prop :=
+  (Eff.ncmd ∈ e ↔ P) ∧ e.count Eff.ncmd ≤ 1 ∧ (Eff.ncmd ∈ e → e.getLast? = some Eff.ncmd)
+
+theorem NcmdSpec.of_not_mem {e : List Eff} {P : Prop} (h : Eff.ncmd ∉ e) (hP : ¬ P) :
+    NcmdSpec e P := by
+  refine ⟨⟨fun h' => absurd h' h, fun h' => absurd h' hP⟩, ?_, fun h' => absurd h' h⟩
+  rw [List.count_eq_zero_of_not_mem h]; omega
+
+theorem NcmdSpec.prepend {pre e : List Eff} {P : Prop} (hp : Eff.ncmd ∉ pre) (h : NcmdSpec e P) :
+    NcmdSpec (pre ++ e) P := by
+  obtain ⟨h1, h2, h3⟩ := h
+  refine ⟨?_, ?_, ?_⟩
+  · rw [List.mem_append, ← h1]
+    exact ⟨fun h => h.resolve_left hp, Or.inr⟩
+  · rw [List.count_append, List.count_eq_zero_of_not_mem hp]; omega
+  · intro hm
+    have hm' : Eff.ncmd ∈ e := (List.mem_append.mp hm).resolve_left hp
+    rw [List.getLast?_append, h3 hm']; rfl
+
+theorem NcmdSpec.congr {e : List Eff} {P Q : Prop} (h : NcmdSpec e P) (hpq : P ↔ Q) :
+    NcmdSpec e Q := ⟨h.1.trans hpq, h.2⟩
+
+/-! ### cancelTimer -/
+
+theorem cancelTimer_kept (s : St) : Kept s (cancelTimer s).1 := by
+  unfold cancelTimer Kept; split <;> simp
+
+theorem cancelTimer_ncmd (s : St) : Eff.ncmd ∉ (cancelTimer s).2 := by
+  unfold cancelTimer; split <;> simp
+
+theorem cancelTimer_nodeStale (s : St) : Eff.nodeStale ∉ (cancelTimer s).2 := by
+  unfold cancelTimer; split <;> simp
+
+/-! ### setStale -/
+
+theorem setStale_eq (s : St) (t : Nat) : setStale s t =
+    if s.life = .stale then (s, [])
+    else if t < s.birthTs then (s, [])
+    else
+      ({ (cancelTimer { s with reseq := Reseq.init }).1 with
+          life := .stale, staleTs := t,
+          devices := (cancelTimer { s with reseq := Reseq.init }).1.devices.map fun d => (d.1, .stale) },
+       (cancelTimer { s with reseq := Reseq.init }).2 ++ [.nodeStale] ++
+         (cancelTimer { s with reseq := Reseq.init }).1.devices.map fun d => .devStale d.1) := rfl
+
+theorem setStale_ncmd (s : St) (t : Nat) : Eff.ncmd ∉ (setStale s t).2 := by
+  rw [setStale_eq]
+  split
+  · simp
+  · split
+    · simp
+    · simp [cancelTimer_ncmd]
+
+theorem setStale_fields (s : St) (t : Nat) :
+    (setStale s t).1.lastRebirth = s.lastRebirth ∧ (setStale s t).1.birthTs = s.birthTs ∧
+    (setStale s t).1.bdseq = s.bdseq := by
+  have hk := cancelTimer_kept { s with reseq := Reseq.init }
+  rw [setStale_eq]
+  split
+  · simp
+  · split
+    · simp
+    · exact ⟨hk.1, hk.2.1, hk.2.2.2⟩
+
+theorem setStale_of_stale (s : St) (t : Nat) (h : s.life = .stale) : setStale s t = (s, []) := by
+  rw [setStale_eq, if_pos h]
+
+theorem setStale_life (s : St) (t : Nat) (ht : s.birthTs ≤ t) :
+    (setStale s t).1.life = .stale ∧ (s.life = .birthed → Eff.nodeStale ∈ (setStale s t).2) := by
+  rw [setStale_eq]
+  split
+  · rename_i h; simp [h]
+  · rw [if_neg (by omega)]
+    simp
+
+/-! ### issueRebirth -/
+
+theorem issueRebirth_eq (c : Cfg) (s : St) (r : Reason) (now wall : Nat) :
+    issueRebirth c s r now wall =
+    if !c.enabled r then (s, [])
+    else if wall - s.lastRebirth < c.cooldown then (s, [])
+    else ((setStale { s with lastRebirth := wall } now).1,
+          (setStale { s with lastRebirth := wall } now).2 ++ [.ncmd]) := rfl
+
+theorem issueRebirth_spec (c : Cfg) (s : St) (r : Reason) (now wall : Nat) :
+    NcmdSpec (issueRebirth c s r now wall).2 (c.enabled r = true ∧ c.cooldown ≤ wall - s.lastRebirth) := by
+  rw [issueRebirth_eq]
+  split
+  · rename_i h
+    exact NcmdSpec.of_not_mem (by simp) (by simp at h; simp [h])
+  · rename_i h
+    simp only [Bool.not_eq_true', Bool.not_eq_false] at h
+    split
+    · rename_i h2
+      exact NcmdSpec.of_not_mem (by simp) (by omega)
+    · rename_i h2
+      refine NcmdSpec.prepend (setStale_ncmd _ _) ?_
+      refine ⟨by simp [h]; omega, by simp, by simp⟩
+
+theorem issueRebirth_stale (c : Cfg) (s : St) (r : Reason) (now wall : Nat) (ht : s.birthTs ≤ now)
+    (h : Eff.ncmd ∈ (issueRebirth c s r now wall).2) :
+    (issueRebirth c s r now wall).1.life = .stale ∧
+    (s.life = .birthed → Eff.nodeStale ∈ (issueRebirth c s r now wall).2) := by
+  rw [issueRebirth_eq] at h ⊢
+  split
+  · rename_i h1; rw [if_pos h1] at h; simp at h
+  · rename_i h1
+    rw [if_neg h1] at h
+    split
+    · rename_i h2; rw [if_pos h2] at h; simp at h
+    · have := setStale_life { s with lastRebirth := wall } now ht
+      refine ⟨this.1, fun hb => ?_⟩
+      exact List.mem_append_left _ (this.2 hb)
+
+/-! ### apply / drainBuf / handleRMsg -/
+
+theorem apply_kept (s : St) (m : RMsg) : Kept s (apply s m).1 := by
+  unfold apply Kept
+  cases m with
+  | ndata id ans => simp
+  | dbirth d id ans => simp only; split <;> simp
+  | ddeath d id => simp only; split <;> simp
+  | ddata d id ans => simp only; split <;> simp
+
+theorem apply_ncmd (s : St) (m : RMsg) : Eff.ncmd ∉ (apply s m).2.1 := by
+  unfold apply
+  cases m with
+  | ndata id ans => simp
+  | dbirth d id ans =>
+    simp only
+    split <;> (split <;> simp)
+  | ddeath d id => simp only; split <;> simp
+  | ddata d id ans => simp only; split <;> simp
+
+theorem startTimer_kept (c : Cfg) (s : St) (now : Nat) : Kept s (startTimer c s now).1 := by
+  unfold startTimer Kept; split <;> simp
+
+theorem startTimer_ncmd (c : Cfg) (s : St) (now : Nat) : Eff.ncmd ∉ (startTimer c s now).2 := by
+  unfold startTimer; split <;> simp
+
+theorem kept_reseq (s : St) (r : Reseq.St (Nat × RMsg)) : Kept s { s with reseq := r } :=
+  ⟨rfl, rfl, rfl, rfl⟩
+
+theorem drainBuf_succ (c : Cfg) (now fuel : Nat) (released : Bool) (s : St) (acc : List Eff) :
+    drainBuf c now (fuel + 1) released s acc =
+    match Reseq.drain s.reseq with
+    | (r', .msg m) =>
+      match apply { s with reseq := r' } m.2 with
+      | (s1, e1, none) => drainBuf c now fuel true s1 (acc ++ e1)
+      | (s1, e1, some r) => (s1, acc ++ e1, some r)
+    | (r', .empty) =>
+      ((cancelTimer { s with reseq := r' }).1, acc ++ (cancelTimer { s with reseq := r' }).2, none)
+    | (r', .missing) =>
+      if released then
+        ((startTimer c (cancelTimer { s with reseq := r' }).1 now).1,
+          acc ++ (cancelTimer { s with reseq := r' }).2 ++
+            (startTimer c (cancelTimer { s with reseq := r' }).1 now).2, none)
+      else ({ s with reseq := r' }, acc, none)
+    | (r', .panic) => ({ s with reseq := r' }, acc, none) := rfl
+
+theorem drainBuf_kept (c : Cfg) (now : Nat) (fuel : Nat) : ∀ (released : Bool) (s : St) (acc : List Eff),
+    Kept s (drainBuf c now fuel released s acc).1 ∧
+    (Eff.ncmd ∈ (drainBuf c now fuel released s acc).2.1 → Eff.ncmd ∈ acc) := by
+  induction fuel with
+  | zero => intro released s acc; simp [drainBuf, Kept.refl]
+  | succ fuel ih =>
+    intro released s acc
+    rw [drainBuf_succ]
+    split
+    · rename_i r' m hd
+      have hk := apply_kept { s with reseq := r' } m.2
+      have hn := apply_ncmd { s with reseq := r' } m.2
+      split
+      · rename_i s1 e1 ha
+        rw [ha] at hk hn
+        obtain ⟨ih1, ih2⟩ := ih true s1 (acc ++ e1)
+        refine ⟨((kept_reseq s r').trans hk).trans ih1, fun h => ?_⟩
+        exact (List.mem_append.mp (ih2 h)).resolve_right hn
+      · rename_i s1 e1 r ha
+        rw [ha] at hk hn
+        refine ⟨(kept_reseq s r').trans hk, fun h => ?_⟩
+        exact (List.mem_append.mp h).resolve_right hn
+    · rename_i r' hd
+      refine ⟨(kept_reseq s r').trans (cancelTimer_kept _), fun h => ?_⟩
+      exact (List.mem_append.mp h).resolve_right (cancelTimer_ncmd _)
+    · rename_i r' hd
+      split
+      · refine ⟨((kept_reseq s r').trans (cancelTimer_kept _)).trans (startTimer_kept _ _ _), fun h => ?_⟩
+        rcases List.mem_append.mp h with h | h
+        · exact (List.mem_append.mp h).resolve_right (cancelTimer_ncmd _)
+        · exact absurd h (startTimer_ncmd _ _ _)
+      · exact ⟨kept_reseq s r', fun h => h⟩
+    · rename_i r' hd
+      exact ⟨kept_reseq s r', fun h => h⟩
+
+theorem handleRMsg_eq (c : Cfg) (s : St) (seq ts : Nat) (m : RMsg) (now : Nat) :
+    handleRMsg c s seq ts m now =
+    if ts < s.birthTs ∨ ts < s.staleTs then (s, [], none)
+    else if s.life ≠ .birthed then (s, [], some .recordedStateStale)
+    else if !c.resequence then apply s m
+    else
+      match Reseq.process s.reseq seq (seq, m) with
+      | (r', .inserted) =>
+        match s.timer with
+        | .none => ((startTimer c { s with reseq := r' } now).1, (startTimer c { s with reseq := r' } now).2, none)
+        | _ => ({ s with reseq := r' }, [], none)
+      | (r', .dup) => ({ s with reseq := r' }, [], some .reorderFail)
+      | (r', .next m') =>
+        match apply { s with reseq := r' } m'.2 with
+        | (s1, e1, some r) => (s1, e1, some r)
+        | (s1, e1, none) => drainBuf c now (s1.reseq.buf.length + 1) false s1 e1 := rfl
+
+theorem handleRMsg_kept (c : Cfg) (s : St) (seq ts : Nat) (m : RMsg) (now : Nat) :
+    Kept s (handleRMsg c s seq ts m now).1 ∧ Eff.ncmd ∉ (handleRMsg c s seq ts m now).2.1 := by
+  rw [handleRMsg_eq]
+  split
+  · simp [Kept.refl]
+  split
+  · simp [Kept.refl]
+  split
+  · exact ⟨apply_kept s m, apply_ncmd s m⟩
+  split
+  · rename_i r' hp
+    split
+    · exact ⟨(kept_reseq s r').trans (startTimer_kept _ _ _), startTimer_ncmd _ _ _⟩
+    · exact ⟨kept_reseq s r', by simp⟩
+  · rename_i r' hp
+    exact ⟨kept_reseq s r', by simp⟩
+  · rename_i r' m' hp
+    have hk := apply_kept { s with reseq := r' } m'.2
+    have hn := apply_ncmd { s with reseq := r' } m'.2
+    split
+    · rename_i s1 e1 r ha
+      rw [ha] at hk hn
+      exact ⟨(kept_reseq s r').trans hk, hn⟩
+    · rename_i s1 e1 ha
+      rw [ha] at hk hn
+      obtain ⟨h1, h2⟩ := drainBuf_kept c now (s1.reseq.buf.length + 1) false s1 e1
+      exact ⟨((kept_reseq s r').trans hk).trans h1, fun h => hn (h2 h)⟩
+
+/-! ### step, case by case -/
+
+theorem handleBirth_eq (c : Cfg) (s : St) (ts bdseq id : Nat) (ans : Ans) (now wall : Nat) :
+    handleBirth c s ts bdseq id ans now wall =
+    if ts ≤ s.birthTs then (s, [])
+    else
+      if ¬ (s.life = .birthed ∧ s.bdseq = bdseq) ∧ ans ≠ .ok then
+        ((issueRebirth c s .invalidPayload now wall).1,
+          [.nodeBirth id false] ++ (issueRebirth c s .invalidPayload now wall).2)
+      else
+        ({ (cancelTimer s).1 with birthTs := ts, life := .birthed, bdseq := bdseq, reseq := Reseq.setNext Reseq.init 1 },
+          (if s.life = .birthed ∧ s.bdseq = bdseq then [] else [Eff.nodeBirth id true]) ++
+            (cancelTimer s).2) := rfl
+
+theorem step_ndeath_eq (c : Cfg) (s : St) (bd now wall : Nat) :
+    step c s (.ndeath bd) now wall =
+    if bd ≠ (setStale (cancelTimer s).1 now).1.bdseq then
+      ((issueRebirth c (setStale (cancelTimer s).1 now).1 .outOfSyncBdSeq now wall).1,
+        (cancelTimer s).2 ++ (setStale (cancelTimer s).1 now).2 ++
+          (issueRebirth c (setStale (cancelTimer s).1 now).1 .outOfSyncBdSeq now wall).2)
+    else ((setStale (cancelTimer s).1 now).1, (cancelTimer s).2 ++ (setStale (cancelTimer s).1 now).2) := rfl
+
+theorem step_rmsg_eq (c : Cfg) (s : St) (seq ts : Nat) (m : RMsg) (now wall : Nat) :
+    step c s (.rmsg seq ts m) now wall =
+    match (handleRMsg c s seq ts m now).2.2 with
+    | none => ((handleRMsg c s seq ts m now).1, (handleRMsg c s seq ts m now).2.1)
+    | some r =>
+      ((issueRebirth c (handleRMsg c s seq ts m now).1 r now wall).1,
+        (handleRMsg c s seq ts m now).2.1 ++
+          (issueRebirth c (handleRMsg c s seq ts m now).1 r now wall).2) := by
+  simp only [step]
+  split <;> rename_i h <;> simp [h]
+
+theorem ndeath_bdseq (s : St) (now : Nat) : (setStale (cancelTimer s).1 now).1.bdseq = s.bdseq := by
+  rw [(setStale_fields _ _).2.2, (cancelTimer_kept s).2.2.2]
+
+theorem ndeath_lastRebirth (s : St) (now : Nat) :
+    (setStale (cancelTimer s).1 now).1.lastRebirth = s.lastRebirth := by
+  rw [(setStale_fields _ _).1, (cancelTimer_kept s).1]
+
+theorem step_spec (c : Cfg) (s : St) (i : In) (now wall : Nat) :
+    NcmdSpec (step c s i now wall).2
+      (∃ r, raised c s i now = some r ∧ c.enabled r = true ∧ CooldownOk c s wall) := by
+  cases i with
+  | nbirth ts bd id ans =>
+    simp only [step, raised, handleBirth_eq]
+    split
+    · exact NcmdSpec.of_not_mem (by simp) (by simp)
+    · split
+      · refine NcmdSpec.prepend (by simp) ?_
+        exact (issueRebirth_spec c s .invalidPayload now wall).congr (by simp [CooldownOk])
+      · refine NcmdSpec.of_not_mem ?_ (by simp)
+        have := cancelTimer_ncmd s
+        split <;> simp [this]
+  | ndeath bd =>
+    rw [step_ndeath_eq]
+    simp only [raised, ndeath_bdseq]
+    split
+    · refine NcmdSpec.prepend ?_ ?_
+      · simp [cancelTimer_ncmd, setStale_ncmd]
+      · refine (issueRebirth_spec c _ .outOfSyncBdSeq now wall).congr ?_
+        rw [ndeath_lastRebirth]
+        simp [CooldownOk]
+    · exact NcmdSpec.of_not_mem (by simp [cancelTimer_ncmd, setStale_ncmd]) (by simp)
+  | rmsg seq ts m =>
+    rw [step_rmsg_eq]
+    simp only [raised]
+    obtain ⟨hk, hn⟩ := handleRMsg_kept c s seq ts m now
+    split
+    · rename_i h
+      exact NcmdSpec.of_not_mem hn (by simp [h])
+    · rename_i r h
+      refine NcmdSpec.prepend hn ?_
+      refine (issueRebirth_spec c _ r now wall).congr ?_
+      rw [hk.1, h]
+      simp [CooldownOk]
+  | offline =>
+    simp only [step, raised]
+    exact NcmdSpec.of_not_mem (setStale_ncmd _ _) (by simp)
+  | rebirthReq r =>
+    simp only [step, raised]
+    exact (issueRebirth_spec c s r now wall).congr (by simp [CooldownOk])
+  | timerFire =>
+    simp only [step, raised]
+    cases ht : s.timer with
+    | armed dl =>
+      exact (issueRebirth_spec c _ .reorderTimeout now wall).congr (by simp [CooldownOk])
+    | none => exact NcmdSpec.of_not_mem (by simp) (by simp)
+    | fired => exact NcmdSpec.of_not_mem (by simp) (by simp)
+
+theorem step_stale (c : Cfg) (s : St) (i : In) (now wall : Nat) (hclock : s.birthTs ≤ now)
+    (h : Eff.ncmd ∈ (step c s i now wall).2) :
+    (step c s i now wall).1.life = .stale ∧
+    (s.life = .birthed → Eff.nodeStale ∈ (step c s i now wall).2) := by
+  cases i with
+  | nbirth ts bd id ans =>
+    simp only [step, handleBirth_eq] at h ⊢
+    split
+    · rename_i h1; rw [if_pos h1] at h; simp at h
+    · rename_i h1
+      rw [if_neg h1] at h
+      split
+      · rename_i h2
+        rw [if_pos h2] at h
+        have h' : Eff.ncmd ∈ (issueRebirth c s .invalidPayload now wall).2 := by simpa using h
+        have := issueRebirth_stale c s _ now wall hclock h'
+        exact ⟨this.1, fun hb => List.mem_append_right _ (this.2 hb)⟩
+      · rename_i h2
+        rw [if_neg h2] at h
+        have := cancelTimer_ncmd s
+        exfalso
+        split at h <;> simp [this] at h
+  | ndeath bd =>
+    rw [step_ndeath_eq] at h ⊢
+    have hbt : (cancelTimer s).1.birthTs ≤ now := by rw [(cancelTimer_kept s).2.1]; exact hclock
+    have hst := setStale_life (cancelTimer s).1 now hbt
+    rw [(cancelTimer_kept s).2.2.1] at hst
+    split
+    · rename_i h1
+      rw [if_pos h1] at h
+      have h' : Eff.ncmd ∈ (issueRebirth c (setStale (cancelTimer s).1 now).1 .outOfSyncBdSeq now wall).2 := by
+        simpa [cancelTimer_ncmd, setStale_ncmd] using h
+      have hbt2 : (setStale (cancelTimer s).1 now).1.birthTs ≤ now := by
+        rw [(setStale_fields _ _).2.1]; exact hbt
+      have := issueRebirth_stale c _ _ now wall hbt2 h'
+      refine ⟨this.1, fun hb => ?_⟩
+      exact List.mem_append_left _ (List.mem_append_right _ (hst.2 hb))
+    · rename_i h1
+      rw [if_neg h1] at h
+      simp [cancelTimer_ncmd, setStale_ncmd] at h
+  | rmsg seq ts m =>
+    rw [step_rmsg_eq] at h ⊢
+    obtain ⟨hk, hn⟩ := handleRMsg_kept c s seq ts m now
+    split
+    · rename_i h1
+      rw [h1] at h
+      exact absurd h hn
+    · rename_i r h1
+      rw [h1] at h
+      have h' := (List.mem_append.mp h).resolve_left hn
+      have := issueRebirth_stale c _ r now wall (by rw [hk.2.1]; exact hclock) h'
+      rw [hk.2.2.1] at this
+      exact ⟨this.1, fun hb => List.mem_append_right _ (this.2 hb)⟩
+  | offline =>
+    simp only [step] at h
+    exact absurd h (setStale_ncmd _ _)
+  | rebirthReq r =>
+    simp only [step] at h ⊢
+    exact issueRebirth_stale c s r now wall hclock h
+  | timerFire =>
+    simp only [step] at h ⊢
+    split
+    · rename_i dl h1
+      rw [h1] at h
+      exact issueRebirth_stale c { s with timer := .fired } _ now wall hclock h
+    · rename_i h1
+      split at h
+      · rename_i dl h2; exact absurd h2 (h1 dl)
+      · simp at h
+
+/-! ### `Reseq.process` under the invariant -/
+
+theorem wsub_inj (a b off : Nat) (ha : a < 256) (hb : b < 256) (h : Reseq.wsub a off = Reseq.wsub b off) :
+    a = b := by
+  unfold Reseq.wsub at h; omega
+
+theorem hasKey_buf_iff {α : Type} (r : Reseq.St (Nat × α)) (off seq : Nat) (hinv : Reseq.Inv r)
+    (hm : r.mode = .reseq off) (hseq : seq < 256) :
+    Reseq.hasKey (Reseq.wsub seq off) r.buf = true ↔ ∃ x ∈ r.buf, x.2.1 = seq := by
+  obtain ⟨_, hi⟩ := hinv
+  rw [hm] at hi
+  obtain ⟨_, _, _, hall⟩ := hi
+  rw [Reseq.hasKey_iff]
+  constructor
+  · rintro ⟨x, hx, hk⟩
+    refine ⟨x, hx, ?_⟩
+    obtain ⟨h1, h2⟩ := hall x hx
+    rw [h2] at hk
+    exact wsub_inj _ _ _ h1 hseq hk
+  · rintro ⟨x, hx, hk⟩
+    refine ⟨x, hx, ?_⟩
+    rw [(hall x hx).2, hk]
+
+theorem process_dup {α : Type} (r : Reseq.St (Nat × α)) (seq : Nat) (m : Nat × α) (hinv : Reseq.Inv r)
+    (hseq : seq < 256) (hdup : ∃ x ∈ r.buf, x.2.1 = seq) :
+    Reseq.process r seq m = (r, .dup) := by
+  cases hm : r.mode with
+  | good =>
+    have := hinv.2
+    rw [hm] at this
+    simp only at this
+    obtain ⟨x, hx, _⟩ := hdup
+    rw [this] at hx
+    simp at hx
+  | reseq off =>
+    have hk := (hasKey_buf_iff r off seq hinv hm hseq).mpr hdup
+    simp [Reseq.process, hm, hk]
+
+theorem process_next {α : Type} (r : Reseq.St (Nat × α)) (seq : Nat) (m : Nat × α) (hinv : Reseq.Inv r)
+    (hseq : seq < 256) (hn : seq = r.next) (hnew : ∀ x ∈ r.buf, x.2.1 ≠ seq) :
+    Reseq.process r seq m = ({ r with next := Reseq.wadd r.next 1 }, .next m) := by
+  cases hm : r.mode with
+  | good => subst hn; simp [Reseq.process, hm]
+  | reseq off =>
+    have hk : Reseq.hasKey (Reseq.wsub seq off) r.buf = false := by
+      rw [← Bool.not_eq_true, hasKey_buf_iff r off seq hinv hm hseq]
+      rintro ⟨x, hx, hk⟩
+      exact hnew x hx hk
+    subst hn
+    simp [Reseq.process, hm, hk]
+
+theorem process_inserted {α : Type} (r : Reseq.St (Nat × α)) (seq : Nat) (m : Nat × α)
+    (hinv : Reseq.Inv r) (hseq : seq < 256) (hn : seq ≠ r.next) (hnew : ∀ x ∈ r.buf, x.2.1 ≠ seq) :
+    ∃ r', Reseq.process r seq m = (r', .inserted) := by
+  have hne : ¬ r.next = seq := fun h => hn h.symm
+  cases hm : r.mode with
+  | good =>
+    have := hinv.2
+    rw [hm] at this
+    simp only at this
+    simp [Reseq.process, hm, hne, this, Reseq.hasKey]
+  | reseq off =>
+    have hk : Reseq.hasKey (Reseq.wsub seq off) r.buf = false := by
+      rw [← Bool.not_eq_true, hasKey_buf_iff r off seq hinv hm hseq]
+      rintro ⟨x, hx, hk⟩
+      exact hnew x hx hk
+    simp [Reseq.process, hm, hne, hk]
+
+theorem drain_nil {α : Type} (r : Reseq.St α) (h : r.buf = []) : Reseq.drain r = (r, .empty) := by
+  unfold Reseq.drain
+  split <;> simp [h]
+
+theorem drainBuf_nil (c : Cfg) (now fuel : Nat) (released : Bool) (s : St) (acc : List Eff)
+    (h : s.reseq.buf = []) : (drainBuf c now (fuel + 1) released s acc).2.2 = none := by
+  rw [drainBuf_succ, drain_nil _ h]
+
+/-! ### what `handleRMsg` raises -/
+
+theorem handleRMsg_pass (c : Cfg) (s : St) (seq ts : Nat) (m : RMsg) (now : Nat)
+    (hfresh : Fresh s ts) (hb : s.life = .birthed) :
+    handleRMsg c s seq ts m now =
+    if !c.resequence then apply s m
+    else
+      match Reseq.process s.reseq seq (seq, m) with
+      | (r', .inserted) =>
+        match s.timer with
+        | .none => ((startTimer c { s with reseq := r' } now).1, (startTimer c { s with reseq := r' } now).2, none)
+        | _ => ({ s with reseq := r' }, [], none)
+      | (r', .dup) => ({ s with reseq := r' }, [], some .reorderFail)
+      | (r', .next m') =>
+        match apply { s with reseq := r' } m'.2 with
+        | (s1, e1, some r) => (s1, e1, some r)
+        | (s1, e1, none) => drainBuf c now (s1.reseq.buf.length + 1) false s1 e1 := by
+  obtain ⟨h1, h2⟩ := hfresh
+  rw [handleRMsg_eq, if_neg (by omega), if_neg (by simp [hb])]
+
+theorem raised_stale (c : Cfg) (s : St) (seq ts : Nat) (m : RMsg) (now : Nat)
+    (hfresh : Fresh s ts) (hst : s.life = .stale) :
+    raised c s (.rmsg seq ts m) now = some .recordedStateStale := by
+  obtain ⟨h1, h2⟩ := hfresh
+  simp only [raised]
+  rw [handleRMsg_eq, if_neg (by omega), if_pos (by simp [hst])]
+
+theorem raised_dup (c : Cfg) (s : St) (seq ts : Nat) (m : RMsg) (now : Nat)
+    (hinv : HostInv s) (hseq : seq < 256) (hfresh : Fresh s ts) (hb : s.life = .birthed)
+    (hres : c.resequence = true) (hdup : ∃ x ∈ s.reseq.buf, x.2.1 = seq) :
+    raised c s (.rmsg seq ts m) now = some .reorderFail := by
+  simp only [raised]
+  rw [handleRMsg_pass c s seq ts m now hfresh hb, process_dup _ _ _ hinv.1 hseq hdup]
+  simp [hres]
+
+theorem handleRMsg_inserted (c : Cfg) (s : St) (seq ts : Nat) (m : RMsg) (now : Nat)
+    (hinv : HostInv s) (hseq : seq < 256) (hfresh : Fresh s ts) (hb : s.life = .birthed)
+    (hres : c.resequence = true) (hgap : seq ≠ s.reseq.next)
+    (hnew : ∀ x ∈ s.reseq.buf, x.2.1 ≠ seq) :
+    ∃ r', handleRMsg c s seq ts m now =
+      match s.timer with
+      | .none => ((startTimer c { s with reseq := r' } now).1, (startTimer c { s with reseq := r' } now).2, none)
+      | _ => ({ s with reseq := r' }, [], none) := by
+  obtain ⟨r', hr⟩ := process_inserted s.reseq seq (seq, m) hinv.1 hseq hgap hnew
+  refine ⟨r', ?_⟩
+  rw [handleRMsg_pass c s seq ts m now hfresh hb, hr]
+  simp [hres]
+
+theorem raised_inserted (c : Cfg) (s : St) (seq ts : Nat) (m : RMsg) (now : Nat)
+    (hinv : HostInv s) (hseq : seq < 256) (hfresh : Fresh s ts) (hb : s.life = .birthed)
+    (hres : c.resequence = true) (hgap : seq ≠ s.reseq.next)
+    (hnew : ∀ x ∈ s.reseq.buf, x.2.1 ≠ seq) :
+    raised c s (.rmsg seq ts m) now = none := by
+  obtain ⟨r', hr⟩ := handleRMsg_inserted c s seq ts m now hinv hseq hfresh hb hres hgap hnew
+  simp only [raised]
+  rw [hr]
+  split <;> rfl
+
+theorem gap_arms_timer (c : Cfg) (s : St) (seq ts : Nat) (m : RMsg) (now wall d : Nat)
+    (hinv : HostInv s) (hseq : seq < 256) (hfresh : Fresh s ts) (hb : s.life = .birthed)
+    (hres : c.resequence = true) (hto : c.reorderTimeout = some d) (hgap : seq ≠ s.reseq.next)
+    (hnew : ∀ x ∈ s.reseq.buf, x.2.1 ≠ seq) (hidle : s.timer = .none) :
+    (step c s (.rmsg seq ts m) now wall).1.timer = .armed (now + d) ∧
+    (step c s (.rmsg seq ts m) now wall).2 = [Eff.timerStart] := by
+  obtain ⟨r', hr⟩ := handleRMsg_inserted c s seq ts m now hinv hseq hfresh hb hres hgap hnew
+  rw [hidle] at hr
+  simp only at hr
+  rw [step_rmsg_eq, hr]
+  simp [startTimer, hto]
+
+/-- an in-sequence message is applied; if applying it raises `r` (whatever the resequencer's
+state), that is what the input raises -/
+theorem raised_inseq_some (c : Cfg) (s : St) (seq ts : Nat) (m : RMsg) (now : Nat)
+    (hinv : HostInv s) (hseq : seq < 256) (hfresh : Fresh s ts) (hb : s.life = .birthed)
+    (hin : InSeq c s seq) (r : Reason)
+    (hap : ∀ rs, (apply { s with reseq := rs } m).2.2 = some r) :
+    raised c s (.rmsg seq ts m) now = some r := by
+  simp only [raised]
+  rw [handleRMsg_pass c s seq ts m now hfresh hb]
+  cases hres : c.resequence with
+  | false => simpa using hap s.reseq
+  | true =>
+    rcases hin with hin | ⟨hn, hnew⟩
+    · rw [hres] at hin; cases hin
+    · rw [process_next _ _ _ hinv.1 hseq hn hnew]
+      simp only [Bool.not_true, Bool.false_eq_true, if_false]
+      have := hap { s.reseq with next := Reseq.wadd s.reseq.next 1 }
+      generalize apply { s with reseq := { s.reseq with next := Reseq.wadd s.reseq.next 1 } } m = p at this ⊢
+      obtain ⟨s1, e1, o⟩ := p
+      simp only at this
+      subst this
+      rfl
+
+theorem raised_ndata_ok (c : Cfg) (s : St) (seq ts id : Nat) (now : Nat)
+    (hinv : HostInv s) (hseq : seq < 256) (hfresh : Fresh s ts) (hb : s.life = .birthed)
+    (hin : InSeq c s seq) (hbuf : s.reseq.buf = []) :
+    raised c s (.rmsg seq ts (.ndata id .ok)) now = none := by
+  simp only [raised]
+  rw [handleRMsg_pass c s seq ts _ now hfresh hb]
+  cases hres : c.resequence with
+  | false => simp [apply]
+  | true =>
+    rcases hin with hin | ⟨hn, hnew⟩
+    · rw [hres] at hin; cases hin
+    · rw [process_next _ _ _ hinv.1 hseq hn hnew]
+      simp only [Bool.not_true, Bool.false_eq_true, if_false, apply, if_true]
+      exact drainBuf_nil _ _ _ _ _ _ hbuf
+
+/-! ### the dispatcher -/
+
+theorem findNode_setNode (n : Nat) (s : St) (ns : Nodes) : findNode n (setNode n s ns) = some s := by
+  induction ns with
+  | nil => simp [setNode, findNode]
+  | cons a t ih =>
+    obtain ⟨n', s'⟩ := a
+    simp only [setNode]
+    split
+    · rename_i h; simp [findNode, h]
+    · rename_i h; simp [findNode, h, ih]
+
+theorem unknown_node (c : Cfg) (a : App) (n seq ts : Nat) (m : RMsg) (now wall : Nat)
+    (hunk : findNode n a.nodes = none) (hen : c.unknownNode = true) (hcd : c.cooldown ≤ wall) :
+    (appStep c a (.node n (.rmsg seq ts m)) now wall).2
+      = [AppEff.nodeCreated n, AppEff.node n Eff.ncmd] ∧
+    (findNode n (appStep c a (.node n (.rmsg seq ts m)) now wall).1.nodes).map (·.life) = some .stale := by
+  have hstep : step c init (.rebirthReq .unknownNode) now wall = ({ init with lastRebirth := wall }, [.ncmd]) := by
+    simp only [step]
+    rw [issueRebirth_eq]
+    have h1 : c.enabled .unknownNode = true := hen
+    have h2 : ¬ (wall - init.lastRebirth < c.cooldown) := by simp [init]; omega
+    rw [if_neg (by simp [h1]), if_neg h2, setStale_of_stale _ _ (by rfl)]
+    rfl
+  simp only [appStep, hunk, stepNode, hstep, findNode_setNode]
+  simp
+  rfl
 
 end Srad.Host
